@@ -96,6 +96,13 @@ func ParseWriteMultipleRegistersRequestTCP(data []byte) (*WriteMultipleRegisters
 		return nil, err
 	}
 	unitID := data[6]
+	if len(data) < 13 {
+		tmpErr := NewErrorParseTCP(ErrIllegalDataValue, "received data length too short to be valid packet")
+		tmpErr.Packet.TransactionID = header.TransactionID
+		tmpErr.Packet.UnitID = unitID
+		tmpErr.Packet.Function = FunctionWriteMultipleRegisters
+		return nil, tmpErr
+	}
 	if data[7] != FunctionWriteMultipleRegisters {
 		tmpErr := NewErrorParseTCP(ErrIllegalFunction, "received function code in packet is not 0x10")
 		tmpErr.Packet.TransactionID = header.TransactionID
